@@ -2249,6 +2249,20 @@ func (sa *Application) GetAllPlaceholderData() []*PlaceholderData {
 	return placeholders
 }
 
+// GetPlaceholderDataCopy returns a copy of the placeholder data of each task group.
+// The entries returned by GetAllPlaceholderData are the tracked objects, their counters change under the application
+// lock: callers that read the counters without that lock, like the REST API, must use the copy.
+func (sa *Application) GetPlaceholderDataCopy() []*PlaceholderData {
+	sa.RLock()
+	defer sa.RUnlock()
+	placeholders := make([]*PlaceholderData, 0, len(sa.placeholderData))
+	for _, taskGroup := range sa.placeholderData {
+		phCopy := *taskGroup
+		placeholders = append(placeholders, &phCopy)
+	}
+	return placeholders
+}
+
 func (sa *Application) GetAskMaxPriority() int32 {
 	sa.RLock()
 	defer sa.RUnlock()
